@@ -19,6 +19,10 @@
 (* Mode "J", joiner.  Inputs are added and released; every section given   *)
 (* to an input is forwarded once, at once, in the order of arrival:        *)
 (*   JoinForward: out = sent.                                              *)
+(* An input may also be given a new flow definition (JFd); the joiner may  *)
+(* refuse it (an allocation failed while it rebuilt its own flow           *)
+(* definition): either way the input is still there and the sections keep  *)
+(* flowing - a refused update leaves the previous state in force.          *)
 (*                                                                         *)
 (* "Unmodified" is about octets: it is judged on the real code by          *)
 (* PsiSections_Trace (the harness compares the octets delivered with the   *)
@@ -125,9 +129,22 @@ JDel(i) ==
     /\ Log([op |-> "jdel", o |-> i, f |-> 0, d |-> 0, dels |-> <<>>])
     /\ UNCHANGED <<last, out, sent, nin>>
 
+\* set_flow_def on input i; refused = 1: the joiner could not apply it.
+\* (neg_fdfail: a joiner that loses its own flow definition on that path and
+\* drops everything from then on - recorded in the f field of the inputs)
+JFd(i, refused) ==
+    /\ Mode = "J" /\ nops < MaxOps /\ i \in PortsOf(present)
+    /\ subs' = IF Variant = "neg_fdfail" /\ refused = 1
+               THEN [j \in 1..Len(subs) |-> [subs[j] EXCEPT !.f = 1]] ELSE subs
+    /\ nops' = nops + 1
+    /\ Log([op |-> "jfd", o |-> i, f |-> refused, d |-> 0, dels |-> <<>>])
+    /\ UNCHANGED <<present, last, out, sent, nin>>
+
 JInput(i, d) ==
     /\ Mode = "J" /\ nin < MaxIn /\ i \in PortsOf(present)
-    /\ LET fw == IF Variant = "neg_joinfirst" /\ subs[1].o # i THEN <<>> ELSE <<d.k>> IN
+    /\ LET fw == IF Variant = "neg_joinfirst" /\ subs[1].o # i THEN <<>>
+                 ELSE IF Variant = "neg_fdfail" /\ \E j \in 1..Len(subs) : subs[j].f = 1 THEN <<>>
+                 ELSE <<d.k>> IN
        /\ out' = out \o [j \in 1..Len(fw) |-> <<i, fw[j]>>]
        /\ Log([op |-> "jsec", o |-> i, f |-> 0, d |-> d.k, dels |-> fw])
     /\ sent' = Append(sent, <<i, d.k>>)
@@ -140,6 +157,7 @@ Next == \/ \E o \in Ports, f \in FilPal : AddOut(o, f)
         \/ \E o \in Ports : DelOut(o)
         \/ \E d \in SecPal : SInput(d)
         \/ \E i \in Ports : JAdd(i) \/ JDel(i)
+        \/ \E i \in Ports, r \in {0, 1} : JFd(i, r)
         \/ \E i \in Ports, d \in SecPal : JInput(i, d)
 Spec == Init /\ [][Next]_vars
 
